@@ -4,10 +4,11 @@ from .. import core, proggen, pyspec
 from .common import Run, corpus_cases, generic_replay, parse_list
 
 PROP = "C03"
-MODULE = "PLS.Props.C03"
+MODULE = "PLS.Props.C03Y"     # imports PLS.Props.C03
 THEOREMS = ["PLS.C03_nothing_else", "PLS.C03_plain_function", "PLS.C03_fixture_iff", "PLS.C03_deps",
             "PLS.C03_param_usage_span", "PLS.C03_contains_yield_stmt_iff", "PLS.C03_contains_yield_iff",
-            "PLS.C03_test_usages", "PLS.C03_events_for_file", "PLS.C03_analyzeModule_events_for"]
+            "PLS.C03_test_usages", "PLS.C03_events_for_file", "PLS.C03_analyzeModule_events_for",
+            "PLS.C03_yield_in_stmt_is_first", "PLS.C03_yield_line_is_first", "PLS.C03_generator_iff_some_yield"]
 RULE = ("grammar-directed programs (tools/plsv/proggen.py: every decorator spelling and argument form, sync/async, "
         "yield in 14 block/expression contexts, 12 annotation forms, 8 docstring layouts, nested classes, all parameter "
         "kinds, marks at all three levels, 6 string-literal forms, non-ASCII identifiers, multi-line signatures, 8 kinds "
